@@ -115,8 +115,11 @@ pub fn gen_wdwarf(ch: &mut Choices, cx: &mut Ctx) -> (WDwarf, Expect) {
     let mut units: Vec<WUnit> = Vec::new();
     // shapes first (references need to know how many entries each unit has)
     let mut counts = Vec::new();
-    for _ in 0..nunits {
-        counts.push(1 + ch.count(18));
+    // now and then the first unit is wide: dozens of children directly under the root (base types among them, which
+    // the writer moves to the front while keeping every other order)
+    let wide = ch.chance(14);
+    for ui in 0..nunits {
+        counts.push(if wide && ui == 0 { 28 + ch.below(44) } else { 1 + ch.count(18) });
     }
     let mut has_forward = false;
     let mut has_cross = false;
@@ -131,7 +134,7 @@ pub fn gen_wdwarf(ch: &mut Choices, cx: &mut Ctx) -> (WDwarf, Expect) {
         entries.push(WEntry { parent: 0, tag: 0x11, sibling: ch.bool(), attrs: vec![], reserved_early: false, never_added: false });
         for i in 1..n {
             // parents: any earlier entry that is actually added
-            let mut parent = ch.below(i);
+            let mut parent = if wide && ui == 0 && ch.chance(236) { 0 } else { ch.below(i) };
             while entries[parent].never_added {
                 parent = parent.saturating_sub(1);
             }
@@ -166,7 +169,7 @@ pub fn gen_wdwarf(ch: &mut Choices, cx: &mut Ctx) -> (WDwarf, Expect) {
             if units[ui].entries[ei].never_added {
                 continue;
             }
-            let na = ch.count(6);
+            let na = if wide && ui == 0 { ch.count(2) } else { ch.count(6) };
             for _ in 0..na {
                 let u = &units[ui];
                 let kind = ch.below(30);
@@ -181,9 +184,9 @@ pub fn gen_wdwarf(ch: &mut Choices, cx: &mut Ctx) -> (WDwarf, Expect) {
                     4 => (0x3b, WVal::Data4(ch.u32())),
                     5 => (0x88, WVal::Data8(ch.biased(64))),
                     6 => (0x1c, WVal::Data16(((ch.biased(64) as u128) << 64) | ch.biased(64) as u128)),
-                    7 => (ch.pick(&[0x1cu16, 0x3b]), WVal::Sdata(ch.biased_signed(64))),
+                    7 => (ch.pick(&[0x1cu16, 0x3b]), WVal::Sdata(if ch.bool() { ch.sleb_edge() } else { ch.biased_signed(64) })),
                     8 => (ch.pick(&[0x0bu16, 0x39, 0x2007]), WVal::Udata(ch.biased(64))),
-                    9 => (ch.pick(&[0x1cu16, 0x0b]), WVal::ImplicitConst(ch.pick(&[0i64, 63, 64, -64, -65, 0x2000, i64::MIN, 0x7f, 0x80]))),
+                    9 => (ch.pick(&[0x1cu16, 0x0b]), WVal::ImplicitConst(if ch.bool() { ch.sleb_edge() } else { ch.pick(&[0i64, 63, 64, -64, -65, 0x2000, i64::MIN, 0x7f, 0x80]) })),
                     10 | 11 => (ch.pick(&[0x02u16, 0x40, 0x50]), WVal::Exprloc(gen_simple_expr(ch, 0))),
                     12 => (ch.pick(&[0x3fu16, 0x3c]), WVal::Flag(ch.bool())),
                     13 => (0x27, WVal::FlagPresent),
@@ -331,6 +334,9 @@ pub fn gen_wdwarf(ch: &mut Choices, cx: &mut Ctx) -> (WDwarf, Expect) {
     if nunits >= 2 && has_cross && has_forward && var_before_target {
         cx.nt();
     }
+    if wide {
+        cx.label("wide unit (28-71 entries, most of them children of the root)");
+    }
     if has_cross {
         cx.label("cross-unit reference");
     }
@@ -348,7 +354,7 @@ impl Prop for C11 {
         "C11"
     }
     fn rule(&self) -> &'static str {
-        "generated unit tables: 1-4 units (versions 2-5 x 32/64-bit x address size 4/8, one byte order per section set), trees of 1-19 entries with generated parents, base-type entries anywhere among the root's children, ids reserved early and added later, ids reserved and never added (negative case), sibling flags on/off, 0-6 attributes per entry over every write::AttributeValue variant with boundary payloads (block lengths around 127/128, LEB128 size steps, implicit constants around the SLEB/ULEB size difference, duplicate strings in .debug_str/.debug_line_str, enum wrappers, file indices into a line program, expressions incl. nested entry values and, in attributes and in location lists, the entry-referencing operations call4 / call_ref / implicit_pointer / GNU_variable_value / GNU_parameter_ref to entries of any unit), in-unit references forward and backward, cross-unit references in both directions, range and location lists valid for the unit's encoding. Oracle: the model itself: the output is read back with gimli::read and compared by meaning: same tags, nesting, attribute names in order, reference targets by identity marker, strings by content, lists by resolved ranges, expressions by decoded operations, sibling pointers designate the next sibling; unencodable requests must be refused. The writer's own offset-prediction debug assertions fire as panics in the dev profile. Non-trivial = >=2 units with a cross-unit and a forward in-unit reference and a variable-size attribute; distinct by choice string."
+        "generated unit tables: 1-4 units (versions 2-5 x 32/64-bit x address size 4/8, one byte order per section set), trees of 1-19 entries with generated parents (occasionally a wide unit of 28-71 entries, most of them children of the root), base-type entries anywhere among the root's children, ids reserved early and added later, ids reserved and never added (negative case), sibling flags on/off, 0-6 attributes per entry over every write::AttributeValue variant with boundary payloads (block lengths around 127/128, LEB128 size steps, implicit constants around the SLEB/ULEB size difference, duplicate strings in .debug_str/.debug_line_str, enum wrappers, file indices into a line program, expressions incl. nested entry values and, in attributes and in location lists, the entry-referencing operations call4 / call_ref / implicit_pointer / GNU_variable_value / GNU_parameter_ref to entries of any unit), in-unit references forward and backward, cross-unit references in both directions, range and location lists valid for the unit's encoding. Oracle: the model itself: the output is read back with gimli::read and compared by meaning: same tags, nesting, attribute names in order, reference targets by identity marker, strings by content, lists by resolved ranges, expressions by decoded operations, sibling pointers designate the next sibling; unencodable requests must be refused. The writer's own offset-prediction debug assertions fire as panics in the dev profile. Non-trivial = >=2 units with a cross-unit and a forward in-unit reference and a variable-size attribute; distinct by choice string."
     }
     fn assumptions(&self) -> Vec<&'static str> {
         vec![
@@ -358,7 +364,7 @@ impl Prop for C11 {
         ]
     }
     fn max_len(&self) -> usize {
-        900
+        1200
     }
     fn cases(&self, tier: Tier, dev: bool) -> u64 {
         match (tier, dev) {
